@@ -132,8 +132,10 @@ def draw_crash(rng: random.Random, eff: dict, lo: int, hi: int, end_it: int, las
         kind = rng.random()
         if not asyn and kind < 0.5:
             seam = ["save_inside", s, rng.choice(["item", "step", "delete"])]
-        elif kind < 0.25:
+        elif kind < 0.2:
             seam = ["save_enter", s]
+        elif kind < 0.35 and asyn:
+            seam = ["mgr_save_return", s]  # inside save(), right after the hand-over to the writer
         elif kind < 0.6:
             seam = ["save_exit", s]
         else:
